@@ -55,7 +55,6 @@ var errInjected = errors.New("injected permanent curve error")
 
 type stallPanic struct{ why string }
 
-const maxCallsPerOp = 10000
 
 // world is the state of the fault-injecting collaborator.
 type world struct {
@@ -71,6 +70,8 @@ type world struct {
 	warped     int
 	opIndex    int
 	totalPerm  int
+	extraSteps int
+	specCalls  int // steps of the specification's retry chain for the current operation (known before the real call)
 }
 
 func (w *world) reject(cand []byte) bool {
@@ -185,13 +186,21 @@ func (w *world) warp(kind string, il []byte, parent *big.Int, parentPub []byte) 
 	return c.FillBytes(make([]byte, 32))
 }
 
+// callLimit: the double itself is the step counter of the run. The specification's retry chain for the operation is
+// known before the implementation is called (the reference runs first, under the same fault plan); an implementation
+// may validate a candidate more than once, so it gets four times that many calls and a thousand more before the
+// operation is declared stuck. (A fixed bound per operation was wrong for very deep paths at a 99 % rejection rate.)
+// Where the specification stops at an undefined derivation and the implementation (wrongly, and reported as such) goes
+// on deriving, the rest of the path is not covered by the reference's count: 4000 calls per remaining step on top.
+func (w *world) callLimit() int { return 4*w.specCalls + 1000 + 4000*w.extraSteps }
+
 func (w *world) decide(cand []byte) error {
 	if w.permFired {
 		panic(stallPanic{"the collaborator was called again after it had returned a permanent error"})
 	}
 	w.calls++
-	if w.calls > maxCallsPerOp {
-		panic(stallPanic{fmt.Sprintf("more than %d collaborator calls in one operation", maxCallsPerOp)})
+	if limit := w.callLimit(); w.calls > limit {
+		panic(stallPanic{fmt.Sprintf("more than %d collaborator calls in one operation (the specification's retry chain for it has %d steps)", limit, w.specCalls)})
 	}
 	if w.permanent(cand) {
 		w.permFired = true
@@ -422,7 +431,11 @@ func (r *runState) step(i int, op *Op, fc faultCurve, mc *ref.SlipCurve) {
 		api = "NewMasterKey"
 		seed, _ := hex.DecodeString(op.SeedHex)
 		model, kind = ref.Master(mc, seed, mf)
-		call(func() { real, err = slip10.NewMasterKey(append([]byte{}, seed...), fc) })
+		// the seed (and below, the path) belongs to the caller, who reuses the buffer as soon as the call has returned
+		mine := append([]byte{}, seed...)
+		w.specCalls, w.extraSteps = mf.Calls(), 0
+		call(func() { real, err = slip10.NewMasterKey(mine, fc) })
+		scramble(mine)
 	case "path":
 		api = "DeriveKeyFromPath"
 		seed, _ := hex.DecodeString(op.SeedHex)
@@ -434,13 +447,27 @@ func (r *runState) step(i int, op *Op, fc faultCurve, mc *ref.SlipCurve) {
 			parent, hard = "private", ix >= 1<<31
 			model, kind = model.Child(ix, mf)
 		}
-		call(func() {
-			real, err = slip10.DeriveKeyFromPath(append([]byte{}, seed...), fc, append([]uint32{}, op.Path...))
-		})
+		mine, minePath := append([]byte{}, seed...), append([]uint32{}, op.Path...)
+		w.specCalls, w.extraSteps = mf.Calls(), 0
+		if kind != ref.OK && kind != ref.ErrPermanent {
+			w.extraSteps = len(op.Path) + 1
+		}
+		call(func() { real, err = slip10.DeriveKeyFromPath(mine, fc, minePath) })
+		scramble(mine)
+		for j := range minePath {
+			minePath[j] = ^minePath[j]
+		}
+		if len(op.Path) > 200 {
+			r.res.Probes["path_deeper_than_255"] = 1
+		}
 	case "child":
 		api = "DeriveChild"
 		hard = op.Index >= 1<<31
 		model, kind = src.model.Child(op.Index, mf)
+		w.specCalls, w.extraSteps = mf.Calls(), 0
+		if kind != ref.OK && kind != ref.ErrPermanent {
+			w.extraSteps = 1
+		}
 		call(func() { real, err = src.real.DeriveChild(op.Index) })
 	case "import":
 		// an extended PUBLIC key built by the caller from a point and a chain code (the fields of ExtendedKey are
@@ -599,6 +626,12 @@ func (r *runState) step(i int, op *Op, fc faultCurve, mc *ref.SlipCurve) {
 	}
 }
 
+func scramble(b []byte) {
+	for i := range b {
+		b[i] = ^b[i] + byte(i)
+	}
+}
+
 func srcIndex(src, n int) int {
 	if src < 0 {
 		return n - 1
@@ -739,8 +772,18 @@ func Gen(seed uint64, tier string) *Config {
 			if r.IntN(10) == 0 {
 				depth = 5 + r.IntN(6)
 			}
+			if r.IntN(120) == 0 { // now and then a very deep path: beyond what a one-byte depth counter holds
+				if c.Curve == "ed25519" {
+					depth = 254 + r.IntN(5)
+				} else {
+					depth = 30 + r.IntN(12)
+				}
+			}
 			for i := depth; i > 0; i-- {
 				o.Path = append(o.Path, genIndex())
+				if depth > 200 {
+					o.Path[len(o.Path)-1] |= 1 << 31 // a defined derivation all the way down
+				}
 			}
 			// wallets derive many sibling keys in a row: often repeat an earlier seed and path prefix with another last
 			// index (or exactly the same path again)
